@@ -49,6 +49,11 @@ func (e *ScriptedEngine) answer(c EngineCall) (bool, error) {
 		return true, nil
 	case "invalid":
 		return false, nil
+	case "ctxerror":
+		// an engine-side failure that wraps a context error of the ENGINE's making (RPC timeout) while the caller's context lives
+		return false, fmt.Errorf("engine: %w", context.DeadlineExceeded)
+	case "ctxcanceled":
+		return false, fmt.Errorf("engine: %w", context.Canceled)
 	case "errortrue":
 		// an adaptor that reports a failure in the error slot NEXT TO an approving verdict: still an engine error
 		return true, ErrEngine
